@@ -34,10 +34,11 @@ func (s c16S) Var(xs ...int) int {
 	}
 	return t
 }
-func (s c16S) Two() (int, error)  { return 1, nil }
-func (s c16S) None()              {}
-func (s *c16S) PtrMethod() string { return "pm" }
-func (s c16S) IntArg(i int) int   { return i * 2 }
+func (s c16S) Two() (int, error)                       { return 1, nil }
+func (s c16S) None()                                   {}
+func (s *c16S) PtrMethod() string                      { return "pm" }
+func (s c16S) IntArg(i int) int                        { return i * 2 }
+func (s c16S) Join(sep string, parts ...string) string { return strings.Join(parts, sep) }
 
 // expectation for one lookup
 type c16Exp struct {
@@ -189,6 +190,21 @@ func structExp(ptr bool, self c16S) func(stick.Value, []stick.Value) c16Exp {
 				t += int(stick.CoerceNumber(a))
 			}
 			return c16Exp{errOK: true, accept: []stick.Value{t}}
+		case "Join":
+			if len(args) == 0 {
+				return c16Exp{mustErr: true} // the fixed parameter is missing
+			}
+			var parts []string
+			allStr := true
+			for _, a := range args {
+				if _, ok := a.(string); !ok {
+					allStr = false
+				}
+				parts = append(parts, stick.CoerceString(a))
+			}
+			e := c16Exp{errOK: true, accept: []stick.Value{strings.Join(parts[1:], parts[0])}}
+			_ = allStr
+			return e
 		case "Two":
 			return c16Exp{errOK: true, accept: []stick.Value{1}}
 		case "None":
@@ -331,7 +347,7 @@ func c16Containers() []c16Cont {
 }
 
 func c16Keys() []stick.Value {
-	return []stick.Value{"k", "missing", "Field", "unexported", "Method", "PtrMethod", "Add", "Greet", "IntArg", "Var", "Two", "None", "Emb",
+	return []stick.Value{"k", "missing", "Field", "unexported", "Method", "PtrMethod", "Add", "Greet", "IntArg", "Var", "Join", "Two", "None", "Emb",
 		"", 0, 1, 2, -1, 3, 1.0, 1.5, "1", true, false, nil, int8(1), uint(2), "0", "true", []int{1}}
 }
 
